@@ -6,7 +6,7 @@
 From Coq Require Import String Arith Bool QArith Qcanon List Permutation Reals.
 From Coquelicot Require Import Coquelicot.
 From Polar Require Import Qcx BayesNet BayesNetSem BayesNetSpec BayesNetTopo BayesNetCpt BayesNetQuery
-     BayesNetLimit.
+     BayesNetJoint BayesNetLimit BayesNetMain.
 Import ListNotations.
 Open Scope nat_scope.
 
@@ -101,3 +101,180 @@ Theorem C15_sampling_time_limit :
     is_lim_seq (fun n => Q2R (geom (1 - q) n)) (/ Q2R q)%R.
 Proof. exact sampling_time_limit. Qed.
 Print Assumptions C15_sampling_time_limit.
+
+(* ---- THE generated loop body draws the joint law.  For every accepted BIF file (any DAG, any
+   domain sizes >= 1, any notation mix) whose network the code generator sorts, one execution
+   of the generated body from ANY state s0 gives each assignment a of domain positions to
+   (X_1..X_m) exactly the product over all variables of P(X_i = a_i | parents = a_pa(i))
+   (joint_prob: a product in declaration order, no reference to the topological order), where
+   the law of a CPT row r of a d-valued variable is row_law d r: r's first d-1 entries and
+   the remainder 1 - (r_0 + ... + r_(d-2)) for the last value — the implicit last probability
+   of the generated choice.  row_law d r = r when r sums to 1 (C15_row_law_exact); otherwise it
+   differs from r in the last entry only, by 1 - sum r, which acceptance bounds by the
+   tolerance (C15_row_law_shape, C15_accepted_rows_specified_and_valid). *)
+Theorem C15_generated_body_is_joint :
+  forall tol b net body,
+    assemble tol b = Some net -> gen_body net = Some body ->
+    forall s0 a, In a (all_assignments net) ->
+      mass (exec_body body s0) (fun s => nats_eqb (read (length net) s) a) = joint_prob net a.
+Proof.
+  intros tol b net body Ha. exact (joint_of_wf_network net (proj1 (assemble_wf tol b net Ha)) body).
+Qed.
+Print Assumptions C15_generated_body_is_joint.
+
+(* the same for any well-formed network, not only assembled ones *)
+Theorem C15_generated_body_is_joint_wf :
+  forall net body, wf_network net -> gen_body net = Some body ->
+    forall s0 a, In a (all_assignments net) ->
+      mass (exec_body body s0) (fun s => nats_eqb (read (length net) s) a) = joint_prob net a.
+Proof. intros net body Hwf. exact (joint_of_wf_network net Hwf body). Qed.
+Print Assumptions C15_generated_body_is_joint_wf.
+
+(* total mass 1, all drawn values are domain positions, no other variable is touched; hence
+   the expectation of ANY function of the network variables is its sum against the product law *)
+Theorem C15_generated_body_support :
+  forall net body, wf_network net -> gen_body net = Some body ->
+    forall s0,
+      expect (exec_body body s0) (fun _ => 1%Qc) = 1%Qc /\
+      forall ws, In ws (exec_body body s0) ->
+        In (read (length net) (snd ws)) (all_assignments net) /\
+        forall y, length net <= y -> snd ws y = s0 y.
+Proof. intros net body Hwf. exact (support_of_wf_network net Hwf body). Qed.
+Print Assumptions C15_generated_body_support.
+
+Theorem C15_body_expect_by_enumeration :
+  forall net body, wf_network net -> gen_body net = Some body ->
+    forall s0 (g : list nat -> Qc),
+      expect (exec_body body s0) (fun s => g (read (length net) s)) = joint_expect net g.
+Proof. intros net body Hwf. exact (enumeration_of_wf_network net Hwf body). Qed.
+Print Assumptions C15_body_expect_by_enumeration.
+
+Theorem C15_row_law_exact :
+  forall d (r : row), 1 <= d -> length r = d -> qsum r = 1%Qc -> row_law d r = r.
+Proof. exact row_law_exact. Qed.
+Print Assumptions C15_row_law_exact.
+
+Theorem C15_row_law_shape :
+  forall d (r : row), 1 <= d -> length r = d ->
+    row_law d r = firstn (d - 1) r ++ [(nth (d - 1) r 0 + (1 - qsum r))%Qc].
+Proof. exact row_law_shape. Qed.
+Print Assumptions C15_row_law_shape.
+
+(* ---- the whole generated query programs, n loop iterations from the generated initial state.
+   Exact inference: at every n >= 1 and k >= 1, E[inf^k] and E[ind] are the enumeration sums
+   sum_a P(a) [a |= evidence] a_t^k and P(evidence), so E[inf^k]/E[ind] = E[X_t^k | evidence]. *)
+Theorem C15_exact_inference_program :
+  forall net tn ev p, wf_network net -> codegen net (QExact tn ev) = Some p ->
+    exists c t, resolve_evidence net ev = Some c /\ find_nvar net tn = Some t /\
+      forall n k,
+        expect (run p (S n)) (fun s => qpow (qnat (s (S (length net)))) (S k))
+          = joint_expect net (fun a => (ind (ev_holds c a) * qpow (qnat (nth t a O)) (S k))%Qc) /\
+        expect (run p (S n)) (fun s => qnat (s (length net)))
+          = joint_expect net (fun a => ind (ev_holds c a)).
+Proof. intros net tn ev p Hwf. exact (exact_inference_of_wf_network net Hwf tn ev p). Qed.
+Print Assumptions C15_exact_inference_program.
+
+(* Sampling time: E[count]_n = sum_{i<=n} (1-q)^i with q = P(evidence) by enumeration, the
+   closed form q * E[count]_n = 1 - (1-q)^(n+1), and E[count]_n -> 1/q *)
+Theorem C15_sampling_time_program :
+  forall net ev p, wf_network net -> codegen net (QSample ev) = Some p ->
+    exists c, resolve_evidence net ev = Some c /\
+      let q := joint_expect net (fun a => ind (ev_holds c a)) in
+      (forall n, expect (run p n) (fun s => qnat (s (length net))) = geom (1 - q) n) /\
+      (forall n, (q * geom (1 - q) n = 1 - qpow (1 - q) (S n))%Qc) /\
+      ((0 < q)%Qc -> (q <= 1)%Qc ->
+       is_lim_seq (fun n => Q2R (expect (run p n) (fun s => qnat (s (length net))))) (/ Q2R q)%R).
+Proof. intros net ev p Hwf. exact (sampling_time_of_wf_network net Hwf ev p). Qed.
+Print Assumptions C15_sampling_time_program.
+
+(* ---- the defect of cli.common.transform_to_after_loop, in a model that compares symbols as
+   sympy does (name and assumptions): limit_seq with respect to the plain symbol n leaves the
+   solver's closed form in the integer symbol n unchanged; with the integer symbol it is 1/q *)
+Theorem C15_after_loop_symbol_refuted :
+  exists q : Qc, (0 < q)%Qc /\ (q <= 1)%Qc /\
+    transform_to_after_loop_model (count_closed_form q) = LExpr (count_closed_form q) /\
+    transform_fixed_model (count_closed_form q) = LConst (1 / q)%Qc /\
+    geo_eval (count_closed_form q) 0 <> (1 / q)%Qc.
+Proof. exact after_loop_symbol_refuted. Qed.
+Print Assumptions C15_after_loop_symbol_refuted.
+
+(* ------------------------------------------------------------------ non-vacuity (tests by
+   vm_compute, not theorems): bayesnet/repo/testcases/rain.bif *)
+Open Scope string_scope.
+Definition tol : Qc := mkq 1 1000.
+Definition rain_vars : list vardecl :=
+  [ {| vd_name := "rain"; vd_types := [(2, ["0"; "1"])] |};
+    {| vd_name := "sprinkler"; vd_types := [(2, ["0"; "1"])] |};
+    {| vd_name := "grass"; vd_types := [(2, ["0"; "1"])] |} ].
+Definition rain_bif : bif :=
+  {| b_vars := rain_vars;
+     b_probs :=
+       [ {| pb_var := "rain"; pb_parents := []; pb_items := [ITable [mkq 1 5; mkq 4 5]] |};
+         {| pb_var := "sprinkler"; pb_parents := ["rain"];
+            pb_items := [IEntry ["0"] [mkq 2 5; mkq 3 5]; IEntry ["1"] [mkq 1 100; mkq 99 100]] |};
+         {| pb_var := "grass"; pb_parents := ["sprinkler"; "rain"];
+            pb_items := [IEntry ["0"; "0"] [mkq 1 100; mkq 99 100]; IEntry ["0"; "1"] [mkq 1 4; mkq 3 4];
+                         IEntry ["1"; "0"] [mkq 9 10; mkq 1 10]; IEntry ["1"; "1"] [mkq 1 5; mkq 4 5]] |} ] |}.
+(* the same file with tables (own value slowest) and an overwritten default *)
+Definition rain_bif_tables : bif :=
+  {| b_vars := rain_vars;
+     b_probs :=
+       [ {| pb_var := "grass"; pb_parents := ["sprinkler"; "rain"];
+            pb_items := [ITable [mkq 1 100; mkq 1 4; mkq 9 10; mkq 1 5; mkq 99 100; mkq 3 4; mkq 1 10; mkq 4 5];
+                         IDefault [mkq 1 2; mkq 1 2]] |};
+         {| pb_var := "rain"; pb_parents := []; pb_items := [IDefault [mkq 1 5; mkq 4 5]] |};
+         {| pb_var := "sprinkler"; pb_parents := ["rain"];
+            pb_items := [IDefault [mkq 1 100; mkq 99 100]; IEntry ["0"] [mkq 2 5; mkq 3 5]] |} ] |}.
+Definition rain_ev : gcond := [(2, 1); (1, 0)].      (* grass = 1, sprinkler = 0 *)
+Definition rain_net : network := match assemble tol rain_bif with Some n => n | None => [] end.
+
+Example C15_nonvacuous_accept : is_some (assemble tol rain_bif) = true.
+Proof. vm_compute. reflexivity. Qed.
+Example C15_nonvacuous_notations : network_eqb (assemble tol rain_bif) (assemble tol rain_bif_tables) = true.
+Proof. vm_compute. reflexivity. Qed.
+(* a missing row, a row outside the tolerance, a transposed table are refused / differ *)
+Example C15_nonvacuous_reject_missing_row :
+  assemble tol {| b_vars := rain_vars;
+                  b_probs := [ {| pb_var := "rain"; pb_parents := []; pb_items := [ITable [mkq 1 5; mkq 4 5]] |};
+                               {| pb_var := "sprinkler"; pb_parents := ["rain"];
+                                  pb_items := [IEntry ["0"] [mkq 2 5; mkq 3 5]] |};
+                               {| pb_var := "grass"; pb_parents := []; pb_items := [ITable [mkq 1 2; mkq 1 2]] |} ] |}
+  = None.
+Proof. vm_compute. reflexivity. Qed.
+Example C15_nonvacuous_reject_sum :
+  assemble tol {| b_vars := [ {| vd_name := "a"; vd_types := [(2, ["x"; "y"])] |} ];
+                  b_probs := [ {| pb_var := "a"; pb_parents := []; pb_items := [ITable [mkq 1 5; mkq 401 500]] |} ] |}
+  = None.
+Proof. vm_compute. reflexivity. Qed.
+Example C15_nonvacuous_topo :
+  topo_sort (map nv_par rain_net) = Some [0; 1; 2] /\ topo_sort [[1]; [0]] = None /\ topo_sort [[]; [0; 0]] = None.
+Proof. vm_compute. repeat split; reflexivity. Qed.
+(* P(rain=1, sprinkler=0, grass=1) = 0.8 * 0.01 * 0.75 and the semantics of the generated body agree *)
+Example C15_nonvacuous_joint :
+  match gen_body rain_net with
+  | Some body => Qc_eqb (mass (exec_body body (fun _ => 7)) (fun s => nats_eqb (read 3 s) [1; 0; 1])) (mkq 3 500)
+                 && Qc_eqb (joint_prob rain_net [1; 0; 1]) (mkq 3 500)
+  | None => false
+  end = true.
+Proof. vm_compute. reflexivity. Qed.
+(* E(rain**2 | grass = 1, sprinkler = 0) = 5/71, by the semantics of the generated program at n = 2
+   and by enumeration; expected sampling time 2500/213 *)
+Example C15_nonvacuous_exact_inference :
+  match codegen rain_net (QExact "rain" [("grass", "1"); ("sprinkler", "0")]) with
+  | Some p => Qc_eqb (expect (run p 2) (fun s => qpow (qnat (s 4)) 2) / expect (run p 2) (fun s => qnat (s 3)))%Qc (mkq 5 71)
+              && Qc_eqb (joint_expect rain_net (fun a => (ind (ev_holds rain_ev a) * qpow (qnat (nth 0 a O)) 2)%Qc)
+                         / joint_expect rain_net (fun a => ind (ev_holds rain_ev a)))%Qc (mkq 5 71)
+  | None => false
+  end = true.
+Proof. vm_compute. reflexivity. Qed.
+Example C15_nonvacuous_sampling_time :
+  match codegen rain_net (QSample [("grass", "1"); ("sprinkler", "0")]) with
+  | Some p => Qc_eqb (expect (run p 3) (fun s => qnat (s 3))) (geom (1 - mkq 213 2500) 3)
+              && Qc_eqb (joint_expect rain_net (fun a => ind (ev_holds rain_ev a))) (mkq 213 2500)
+  | None => false
+  end = true.
+Proof. vm_compute. reflexivity. Qed.
+Example C15_nonvacuous_names :
+  sanitize "Node-7" = "node7" /\ valid_mapping ["a-b"; "ab"; "AB"] ["ab"; "ab3"; "ab31"] = true
+  /\ valid_mapping ["a-b"; "ab"] ["ab"; "ab"] = false.
+Proof. vm_compute. repeat split; reflexivity. Qed.
